@@ -385,6 +385,24 @@ impl Ctx {
         let v = json!({"property": self.prop, "kind": "hang", "label": label, "case_no": case_no, "worker": worker,
             "what": format!("a single case consumed {} ms of CPU time ({} ms wall); budget {} s of CPU", cpu_ms, wall_ms, self.case_budget.as_secs())});
         let _ = std::fs::write(&path, serde_json::to_string_pretty(&v).unwrap());
+        // the run ends here: leave an evidence file that says so
+        let ev = json!({
+            "property_id": self.prop,
+            "tier": self.tier.name(),
+            "seed": self.seed as i64,
+            "level": "other",
+            "coverage": {
+                "explanation": format!("run aborted by the watchdog: one case of batch '{}' consumed {} ms of CPU time (budget {} s); violations collected before that: {}", label, cpu_ms, self.case_budget.as_secs(), self.violation_count()),
+                "evaluations": self.evaluations().max(1),
+                "exhaustive": false,
+            },
+            "wall_s": self.start.elapsed().as_secs_f64(),
+            "violations": self.violation_count() + 1,
+        });
+        let evdir = format!("{}/evidence", self.verif_dir);
+        let _ = std::fs::create_dir_all(&evdir);
+        let evpath = if is_child() { child_evidence_path(&self.verif_dir, self.prop) } else { format!("{}/{}.json", evdir, self.prop) };
+        let _ = std::fs::write(&evpath, serde_json::to_string_pretty(&ev).unwrap() + "\n");
         println!("VIOLATION property={} replay={}", self.prop, path);
         println!("  hang: {} (case {} of that batch): {} ms CPU, {} ms wall in one case", label, case_no, cpu_ms, wall_ms);
         std::process::exit(1);
